@@ -70,7 +70,7 @@ def ob_exp_ctor(L, sizes, pos):
             out.append(Holds("schedules stored", exp.schedules is lst))
         return out
     inputs = [(f"k{j}", "int", 0, 4) for j in range(L)] + [(f"i{j}", "int", None, None) for j in range(L)]
-    return FnOb(inputs, run, max_paths=20000, explore_budget=600, tv_points=3)
+    return FnOb(inputs, run, max_paths=80000, explore_budget=600, tv_points=3)
 
 
 def ob_exp_copy(L, sizes):
@@ -105,7 +105,7 @@ def ob_exp_copy(L, sizes):
         out.append(Holds("the copy's schedule setter accepts what the original accepted", res3 == "accept"))
         return out
     inputs = [(f"k{j}", "int", 0, 1) for j in range(1, L)] + [(f"i{j}", "int", None, None) for j in range(L)]
-    return FnOb(inputs, run, max_paths=20000, explore_budget=300, tv_points=3)
+    return FnOb(inputs, run, max_paths=80000, explore_budget=300, tv_points=3)
 
 
 MALFORMED = {
@@ -206,7 +206,7 @@ def ob_exp_sched_setter(L, sizes):
         return [Holds("schedules setter accepts <=> well-formed", iff(res == "accept", ok)),
                 Holds("schedules replaced iff accepted", (exp.schedules is new) if res == "accept" else (exp.schedules is good))]
     inputs = [(f"k{j}", "int", 0, 4) for j in range(L)] + [(f"i{j}", "int", None, None) for j in range(L)]
-    return FnOb(inputs, run, max_paths=20000, explore_budget=600)
+    return FnOb(inputs, run, max_paths=80000, explore_budget=600)
 
 
 TOMO_SHAPE = {"qst": ["state", "povm"], "povmt": ["state", "povm"], "qpt": ["state", "gate", "povm"], "qmpt": ["state", "mprocess", "povm"]}
@@ -241,7 +241,7 @@ def ob_tomo_custom(tomo, L):
             out.append(Holds("num_schedules", qt.num_schedules == 2))
         return out
     inputs = [(f"k{j}", "int", 0, 4) for j in range(L)] + [(f"i{j}", "int", None, None) for j in range(L)]
-    return FnOb(inputs, run, max_paths=20000, explore_budget=900, tv_points=2)
+    return FnOb(inputs, run, max_paths=80000, explore_budget=900, tv_points=2)
 
 
 def ob_tomo_all(tomo, sysname):
